@@ -10,6 +10,8 @@ structure Entity where
   id : String
   isFile : Bool := false
   refs : List String := []
+  name : String := ""              -- `name` of a PropertyValue
+  values : List String := []       -- its `value` (strings; `@sha` stands for `{"@id": sha}`)
 deriving Repr, DecidableEq
 
 structure Crate where
@@ -57,5 +59,75 @@ def refsClosed (es : List Entity) : Bool :=
 
 def filesPresent (es : List Entity) (names : List String) : Bool :=
   es.all (fun e => !e.isFile || isExternal e.id || names.contains e.id)
+
+/-! ### values of the run (`get_property_value`, `_get_property_values`, `_update_actions`)
+
+Token values as the CWL manager sees them: `None`, a scalar (recorded as `str(value)`), a File token (checksum, path),
+or a list of those (`flatten_list` removes deeper nesting before anything is recorded). -/
+
+inductive Leaf where
+  | null
+  | scalar (s : String)
+  | file (sha path : String)
+deriving Repr, DecidableEq
+
+inductive TokVal where
+  | leaf (l : Leaf)
+  | list (items : List Leaf)
+deriving Repr, DecidableEq
+
+/-- what a list element contributes to the `value` of the list's PropertyValue -/
+def leafValue : Leaf → Option String
+  | .null => none
+  | .scalar s => some s
+  | .file sha _ => some ("@" ++ sha)
+
+/-- `if property_value["@id"] not in self.graph: self.graph[...] = property_value` -/
+def putNew (c : Crate) (e : Entity) : Crate :=
+  if (c.graph.map (·.1)).contains e.id then c else step c (.put e)
+
+/-- `_process_file_token` + the registration of the File entity (once per checksum) under the root dataset -/
+def registerFile (c : Crate) (sha path : String) : Crate :=
+  let c1 := step c (.mapFile path sha)
+  if (c1.graph.map (·.1)).contains sha then c1
+  else step (step c1 (.put { id := sha, isFile := true })) (.addRef "./" sha)
+
+/-- `_update_actions`: append `{"@id": id}` to the action's `object` / `result` unless already there -/
+def linkAction (c : Crate) (action id : String) : Crate :=
+  if c.graph.any (fun p => p.1 == action && p.2.refs.contains id) then c else step c (.addRef action id)
+
+def registerLeafFiles (c : Crate) : List Leaf → Crate
+  | [] => c
+  | .file sha path :: r => registerLeafFiles (registerFile c sha path) r
+  | _ :: r => registerLeafFiles c r
+
+/-- one input / output value of the run: `fresh` is the uuid the manager draws for a PropertyValue -/
+def registerValue (c : Crate) (action fresh name : String) : TokVal → Crate
+  | .leaf .null => c
+  | .leaf (.scalar s) => linkAction (putNew c { id := fresh, name := name, values := [s] }) action fresh
+  | .leaf (.file sha path) => linkAction (registerFile c sha path) action sha
+  | .list items =>
+      linkAction (putNew (registerLeafFiles c items) { id := fresh, name := name, values := items.filterMap leafValue })
+        action fresh
+
+def registerAll (c : Crate) (action : String) : List (String × String × TokVal) → Crate
+  | [] => c
+  | (fresh, name, tok) :: r => registerAll (registerValue c action fresh name tok) action r
+
+/-- the identifier under which a value is represented -/
+def repId (fresh : String) : TokVal → String
+  | .leaf (.file sha _) => sha
+  | _ => fresh
+
+/-- the entity represents the value: a File entity under its checksum, or a PropertyValue with the port's name and the
+(flattened, null-free) stringified value -/
+def Represents (e : Entity) (name : String) : TokVal → Prop
+  | .leaf .null => True
+  | .leaf (.scalar s) => e.name = name ∧ e.values = [s]
+  | .leaf (.file sha _) => e.id = sha ∧ e.isFile = true
+  | .list items => e.name = name ∧ e.values = items.filterMap leafValue
+
+/-- JSON shape of a recorded `value`: a one-element list is written as its element (`value[0] if len(value) == 1`) -/
+def jsonValueIsScalar (e : Entity) : Bool := e.values.length == 1
 
 end SFV.RunCrate
